@@ -1,0 +1,7 @@
+//go:build !verif
+
+package litefs
+
+// Verification hooks are compiled out unless the "verif" build tag is set.
+func verifPageWrite(db *DB, pgno uint32, data []byte, invalidate bool) {}
+func verifTruncate(db *DB, pageN uint32)                               {}
